@@ -86,6 +86,9 @@ class _InflightOperations:
         handle, task = self._processes[pid]
         del self._processes[pid]
         handle.returncode = returncode
+        if handle.process is not None:
+            # We reaped the process ourselves (see `SigchldHelper`).
+            handle.process.returncode = returncode
         return handle, task
 
     def terminate_processes(self) -> None:
